@@ -156,7 +156,13 @@ fn exec_spec(scratch_root: &Path, bin: &Path, id: usize, sp: &Spec) -> (bool, Ve
         let mut expected_fail = false;
         let dir = scratch_root.join(format!("case{}", id));
         let (sname, stext) = SOURCES[sp.src];
-        let src_dir_rel = if sp.path_kind == 2 { "nested/deeper" } else { "" };
+        // 3: the given path is a symbolic link in work/ to a differently named file in store/ (the
+        // outputs belong next to the path that was given)
+        let src_dir_rel = match sp.path_kind {
+            2 => "nested/deeper",
+            3 => "work",
+            _ => "",
+        };
         let _ = std::fs::create_dir_all(dir.join(src_dir_rel));
         let fname = FILE_NAMES[sp.name];
         // the stem: the file name without its last extension
@@ -164,10 +170,21 @@ fn exec_spec(scratch_root: &Path, bin: &Path, id: usize, sp: &Spec) -> (bool, Ve
             Some(i) if i > 0 => &fname[..i],
             _ => fname,
         };
-        let src_rel = if sp.path_kind == 2 { format!("nested/deeper/{}", fname) } else { fname.to_string() };
+        let src_rel = match sp.path_kind {
+            2 => format!("nested/deeper/{}", fname),
+            3 => format!("work/{}", fname),
+            _ => fname.to_string(),
+        };
         let src_abs = dir.join(os(&src_rel));
         if sname != "nonexistent-source" {
-            std::fs::write(&src_abs, stext).unwrap_or_else(|e| machinery_fail(&format!("cannot write {:?}: {}", src_abs, e)));
+            if sp.path_kind == 3 {
+                let _ = std::fs::create_dir_all(dir.join("store"));
+                let real = dir.join("store/blob_0001.src");
+                std::fs::write(&real, stext).unwrap_or_else(|e| machinery_fail(&format!("cannot write {:?}: {}", real, e)));
+                std::os::unix::fs::symlink("../store/blob_0001.src", &src_abs).unwrap_or_else(|e| machinery_fail(&format!("cannot link {:?}: {}", src_abs, e)));
+            } else {
+                std::fs::write(&src_abs, stext).unwrap_or_else(|e| machinery_fail(&format!("cannot write {:?}: {}", src_abs, e)));
+            }
         }
         let (code_arg, code_path) = place(&dir, "code", sp.code, src_dir_rel, stem, sp.sentinels);
         let (eep_arg, eep_path) = place(&dir, "eeprom", sp.eep, src_dir_rel, stem, sp.sentinels);
@@ -304,8 +321,12 @@ pub fn run(tier: Tier) -> i32 {
         for code in code_locs.iter() {
             for eep in eep_locs.iter() {
                 for verbose in [false, true] {
-                    for path_kind in 0..3u8 {
+                    for path_kind in 0..4u8 {
                         for sentinels in [false, true] {
+                            // the linked source: where a default output name is in use, without -v
+                            if path_kind == 3 && (verbose || !(*code == Loc::Default || *eep == Loc::Default) || (*code != Loc::Default && *eep != Loc::Default)) {
+                                continue;
+                            }
                             // quick tier: the full product only where both locations deviate little
                             if !tier.thorough() {
                                 let dev = (*code != Loc::Default) as u8 + (*eep != Loc::Default) as u8;
